@@ -253,6 +253,234 @@ def rule5(chk, db, cfgname, tab):
     chk.count('c13.5.reduce_sites', n)
 
 
+def _unsigned(t):
+    c = (t.get('c') or t.get('s') or '')
+    return 'unsigned' in c or c in ('bool', 'char8_t', 'char16_t', 'char32_t', 'size_t')
+
+
+def rule6(chk, db, cfgname):
+    chk.rule('C13.6', 'radix sort: every byte-digit extraction (x >> s) & 0xFF operates on an unsigned key, and for a '
+             'signed element type the key conversion flips the sign bit (byte-wise order of the key = order of T)')
+    n = 0
+    for f in db.functions.values():
+        if not f.get('blocks') or not f['name'].startswith('manifold::details::'):
+            continue
+        seen = set()
+        nodes = []
+        for b in f['blocks']:
+            for ev in b['ev']:
+                for x in T.walk(ev):
+                    if isinstance(x, dict) and x.get('k') == 'bin' and x.get('op') == '&':
+                        key = (x.get('ln'), T.pstr(x))
+                        if key not in seen:
+                            seen.add(key)
+                            nodes.append(x)
+        for e in nodes:
+            if True:
+                l, r = T.strip_copy(e['l']), T.strip_copy(e['r'])
+                if not (r.get('k') == 'int' and r.get('v') == 255 and l.get('k') == 'bin' and l.get('op') == '>>'):
+                    continue
+                n += 1
+                x = T.strip_copy(l['l'])
+                t = db.T(f, x)
+                ok = _unsigned(t)
+                via = None
+                if ok and x.get('k') == 'call' and x.get('fk') in db.functions:
+                    # the key function: for a signed parameter it must xor the sign bit
+                    kf = db.functions[x['fk']]
+                    via = kf['name']
+                    pt = db.T(kf, kf['params'][0]['t']) if kf.get('params') else {}
+                    if not _unsigned(pt):
+                        has_xor = any(isinstance(y, dict) and y.get('k') == 'bin' and y.get('op') == '^'
+                                      for bb in kf.get('blocks', []) for ee in bb['ev'] for y in T.walk(ee))
+                        ok = has_xor
+                chk.obligation(ok, {'function': f['key'].split(' :: ')[0][:90], 'line': e.get('ln'),
+                                    'digit operand': T.pstr(x)[:40], 'type': t.get('c') or t.get('s'), 'key fn': via})
+                if not ok:
+                    chk.violation('C13.6', f, 'signed radix digit %s' % T.pstr(x)[:30],
+                                  'the radix sort extracts byte digits from a value of type %s without mapping it to '
+                                  'an order-preserving unsigned key: negative values are placed after positive ones, '
+                                  'unlike std::stable_sort' % (t.get('c') or t.get('s')), line=e.get('ln'), cfg=cfgname)
+    chk.count('c13.6.digit_extractions', n)
+
+
+def rule7(chk, db, cfgname):
+    chk.rule('C13.7', 'unique: every element stored to the output inside the chunk loop is control-dependent on an '
+             '(in)equality test between elements (the head of a chunk is compared with the last kept element)')
+    n = 0
+    for f in db.functions.values():
+        if not f.get('blocks') or f['name'] != 'manifold::unique':
+            continue
+        g = C.Cfg(f)
+        loop_blocks = g.in_loop()
+        for b in f['blocks']:
+            if b['id'] not in loop_blocks:
+                continue
+            for e in b['ev']:
+                lhs = None
+                if e.get('k') == 'bin' and e.get('op') == '=':
+                    lhs = T.strip_copy(e['l'])
+                elif e.get('k') == 'call' and e.get('op') == '=' and e.get('recv') is not None:
+                    lhs = T.strip_copy(e['recv'])
+                if lhs is None or not (lhs.get('op') == '*' and lhs.get('k') in ('un', 'call')):
+                    continue
+                if not any(isinstance(y, dict) and y.get('k') == 'var' and y.get('s') == 'p' for y in T.walk(lhs)):
+                    continue      # only stores through the (output = input) iterator parameter
+                n += 1
+                ok = False
+                for d, k in g.control_deps(b['id']):
+                    if d not in loop_blocks:
+                        continue
+                    cond, _ = C.branch_cond(g.blocks[d])
+                    if cond is None:
+                        continue
+                    for x in T.walk(cond):
+                        if isinstance(x, dict) and x.get('op') in ('!=', '==') and x.get('k') in ('bin', 'call'):
+                            ops = [x.get('l'), x.get('r')] if x['k'] == 'bin' else \
+                                ([x.get('recv')] if x.get('recv') is not None else []) + x.get('args', [])
+                            if any(isinstance(y, dict) and (y.get('k') == 'sub' or
+                                                            (y.get('k') == 'un' and y.get('op') == '*') or
+                                                            (y.get('k') == 'call' and y.get('op') in ('[]', '*')))
+                                   for o in ops if o is not None for y in T.walk(o)):
+                                ok = True
+                chk.obligation(ok, {'function': f['key'].split(' :: ')[0][:60], 'line': e.get('ln'),
+                                    'store': T.pstr(e)[:50], 'guarded by element comparison': ok})
+                if not ok:
+                    chk.violation('C13.7', f, 'unguarded store %s in chunk loop' % T.pstr(e)[:30],
+                                  'an element is written to the output of unique in every iteration of the chunk loop '
+                                  'without being compared with the previously kept element: a pair of equal elements '
+                                  'straddling a chunk boundary survives, unlike std::unique', line=e.get('ln'),
+                                  cfg=cfgname)
+    chk.count('c13.7.loop_stores', n)
+
+
+def rule8(chk, db, cfgname):
+    chk.rule('C13.8', 'the range body of every functional tbb::parallel_reduce / parallel_scan folds the running value '
+             'it is given: its second parameter is named and read (TBB feeds one body object consecutive chunks, so '
+             'a body that ignores the running value forgets the earlier chunks)')
+    n = 0
+    for f in db.functions.values():
+        if not f.get('blocks') or not f['file'].endswith('parallel.h'):
+            continue
+        for b in f['blocks']:
+            for ev in b['ev']:
+                if ev.get('k') == 'call' and ev.get('fn', '') in ('tbb::detail::d1::parallel_reduce',
+                                                                 'tbb::detail::d1::parallel_scan',
+                                                                 'tbb::parallel_reduce', 'tbb::parallel_scan') \
+                        and len(ev.get('args', [])) >= 4:
+                    body = T.strip_copy(ev['args'][2])
+                    lam = None
+                    for x in T.walk(body):
+                        if isinstance(x, dict) and x.get('k') == 'lambda' and x.get('fk') in db.functions:
+                            lam = db.functions[x['fk']]
+                            break
+                    if lam is None or len(lam.get('params', [])) < 2:
+                        continue
+                    n += 1
+                    p = lam['params'][1]
+                    used = bool(p.get('n')) and any(
+                        isinstance(y, dict) and y.get('k') == 'var' and y.get('n') == p['n'] and y.get('s') == 'p'
+                        for bb in lam['blocks'] for ee in (bb['ev'] + ([bb['term']['cond']] if bb.get('term') and
+                                                                  'cond' in bb['term'] else []))
+                        for y in T.walk(ee))
+                    chk.obligation(used, {'wrapper': f['key'].split(' :: ')[0][:70], 'line': ev.get('ln'),
+                                          'running-value parameter': p.get('n') or '(unnamed)', 'read': used})
+                    if not used:
+                        chk.violation('C13.8', f, 'range body ignores its running value',
+                                      'the range body passed to %s never reads its second parameter: the result of '
+                                      'the chunks a body object processed earlier is overwritten by the last chunk, '
+                                      'so the primitive differs from its std:: specification for inputs whose '
+                                      'deciding element is not in the last chunk' % T.short(ev['fn']),
+                                      line=ev.get('ln'), cfg=cfgname)
+    chk.count('c13.8.range_bodies', n)
+
+
+def rule9(chk, db, cfgname):
+    chk.rule('C13.9', 'SortedRange::join: the one inTmp flag describes the whole joined run, so every extension of '
+             'the run (length += rhs.length) is dominated by the buffer-unification test inTmp != rhs.inTmp')
+    n = 0
+    for f in db.functions.values():
+        if not f.get('blocks') or T.short(f['name']) != 'join' or 'SortedRange' not in f['name']:
+            continue
+        g = C.Cfg(f)
+        dom = g.dominators()
+        unify = set()
+        for b in f['blocks']:
+            cond, _ = C.branch_cond(b)
+            if cond is None:
+                continue
+            c = T.strip_copy(cond)
+            if c.get('k') == 'bin' and c.get('op') in ('!=', '=='):
+                names = [T.strip_copy(c['l']), T.strip_copy(c['r'])]
+                if all(x.get('k') == 'mem' and x.get('n') == 'inTmp' for x in names) and \
+                        {T.strip(x['base']).get('k') for x in names} == {'this', 'var'}:
+                    unify.add(b['id'])
+        for b in f['blocks']:
+            for ev in b['ev']:
+                if ev.get('k') == 'bin' and ev.get('op') == '+=' and T.strip(ev['l']).get('k') == 'mem' and \
+                        T.strip(ev['l']).get('n') == 'length':
+                    n += 1
+                    ok = any(u in dom.get(b['id'], ()) for u in unify)
+                    chk.obligation(ok, {'function': f['key'].split(' :: ')[0][:70], 'line': ev.get('ln'),
+                                        'extension dominated by inTmp unification': ok})
+                    if not ok:
+                        chk.violation('C13.9', f, 'run extended without buffer unification',
+                                      'length += rhs.length can be reached without the inTmp != rhs.inTmp test: the '
+                                      'two halves may sit in different buffers while one flag describes both, so '
+                                      'part of the sorted output is read from the wrong buffer', line=ev.get('ln'),
+                                      cfg=cfgname)
+    chk.count('c13.9.run_extensions', n)
+
+
+def rule10(chk, db, cfgname):
+    chk.rule('C13.10', 'DisjointSets::unite links roots along a strict total order: the orientation swap is controlled '
+             'by a condition that compares the ranks and, for equal ranks, the node ids (without the tie-break two '
+             'threads can link a->b and b->a concurrently)')
+    n = 0
+    for f in db.functions.values():
+        if not f.get('blocks') or f['name'] not in ('manifold::DisjointSets::unite', 'DisjointSets::unite'):
+            continue
+        g = C.Cfg(f)
+        for b in f['blocks']:
+            for ev in b['ev']:
+                if ev.get('k') == 'call' and T.short(ev.get('fn', '')) == 'swap' and len(ev.get('args', [])) == 2:
+                    a = [T.strip_copy(x) for x in ev['args']]
+                    if not all(x.get('k') == 'var' for x in a):
+                        continue
+                    ids = {x['n'] for x in a}
+                    # the swap of the node ids (not of the ranks): operands initialised from findImpl
+                    inits = {}
+                    for bb in f['blocks']:
+                        for ee in bb['ev']:
+                            if ee.get('k') == 'bin' and ee.get('op') == '=' and T.strip(ee['l']).get('k') == 'var':
+                                inits.setdefault(T.strip(ee['l'])['n'], []).append(T.pstr(ee['r']))
+                    if not all(any('findImpl' in r for r in inits.get(i, [])) for i in ids):
+                        continue
+                    n += 1
+                    conds = []
+                    for d, k in g.control_deps(b['id']):
+                        cond, _ = C.branch_cond(g.blocks[d])
+                        if cond is not None:
+                            conds.append(cond)
+                    seen_ids = set()
+                    for cnd in conds:
+                        for x in T.walk(cnd):
+                            if isinstance(x, dict) and x.get('k') == 'bin' and x.get('op') in ('<', '>', '<=', '>='):
+                                vs = {y['n'] for y in T.walk(x) if isinstance(y, dict) and y.get('k') == 'var'}
+                                if ids <= vs:
+                                    seen_ids |= ids
+                    ok = seen_ids == ids
+                    chk.obligation(ok, {'function': f['name'], 'line': ev.get('ln'), 'swap of': sorted(ids),
+                                        'controlled by an id comparison': ok})
+                    if not ok:
+                        chk.violation('C13.10', f, 'union orientation without id tie-break',
+                                      'the orientation of the link between two roots is decided by rank alone: for '
+                                      'equal ranks unite(x,y) and unite(y,x) running concurrently link in opposite '
+                                      'directions and both CASes succeed (a two-node cycle / lost union)',
+                                      line=ev.get('ln'), cfg=cfgname)
+    chk.count('c13.10.orientation_swaps', n)
+
+
 def main(chk, tier):
     import db as D
     import c06
@@ -268,12 +496,22 @@ def main(chk, tier):
             rule2(chk, db, cfgname)
             c06.rule_r1c(chk, db, cfgname)
             c06.rule_r4(chk, db, cfgname)
+            rule6(chk, db, cfgname)
+            rule7(chk, db, cfgname)
+            rule8(chk, db, cfgname)
+            rule9(chk, db, cfgname)
+        rule10(chk, db, cfgname)
         rule3(chk, db, cfgname, tab)
         rule5(chk, db, cfgname, tab)
     chk.floor('c13.1.functional_tbb_calls', 3)
     chk.floor('c13.2.protocol_members', 6)
     chk.floor('c13.3.wrappers', 16)
     chk.floor('c13.5.reduce_sites', 6)
+    chk.floor('c13.6.digit_extractions', 4)
+    chk.floor('c13.7.loop_stores', 1)
+    chk.floor('c13.8.range_bodies', 6)
+    chk.floor('c13.9.run_extensions', 2)
+    chk.floor('c13.10.orientation_swaps', 1)
     return chk.finish(
         'Protocol-conformance lints over src/parallel.h in the TBB configuration (which the pinned build never '
         'compiles) and the sequential one: identity arguments of the functional TBB reduce/scan calls, split/join/'
